@@ -44,7 +44,7 @@ GEN = {
         {"decl": "std::string name2(const std::string &s, int n = 2)"},
         {"decl": "void outstr(std::string &o +intent(out), char *buf +intent(out)+charlen(20))", "options": {"wrap_lua": False}},
         {"decl": "void over(int a)"}, {"decl": "void over(double a)"}, {"decl": "void over(const std::string &a, int b = 1)"},
-        {"decl": "class Thing", "declarations": [{"decl": "Thing()"}, {"decl": "Thing(int n)"}, {"decl": "~Thing()"},
+        {"decl": "class Thing", "declarations": [{"decl": "Thing()"}, {"decl": "Thing(int n, int fill = 3)"}, {"decl": "~Thing()"},
                                                  {"decl": "double val(int i) const"}, {"decl": "void set(int v, bool flag = true)"},
                                                  {"decl": "const std::string &label() const"}]},
         {"decl": "enum Mode { ONE, TWO = 5 }"},
@@ -85,7 +85,7 @@ std::string name(const std::string &s, const char *t, int n = 2);
 std::string name2(const std::string &s, int n = 2);
 void outstr(std::string &o, char *buf);
 void over(int a); void over(double a); void over(const std::string &a, int b = 1);
-class Thing { public: Thing(); Thing(int n); ~Thing(); double val(int i) const; void set(int v, bool flag = true); const std::string &label() const; };
+class Thing { public: Thing(); Thing(int n, int fill = 3); ~Thing(); double val(int i) const; void set(int v, bool flag = true); const std::string &label() const; };
 enum Mode { ONE, TWO = 5 };
 Mode mode(Mode m);
 namespace inner { int deep(int x); }
